@@ -52,7 +52,7 @@ def fields_of(t):
 
 
 def cases(rng, tier):
-    n = 1600 if tier == 'quick' else 20000
+    n = 12000 if tier == 'quick' else 200000
     out = []
     for i in range(n):
         t = rec_type(rng, rng.choice([1, 2, 3]))
